@@ -25,17 +25,28 @@ import (
 	"verif/vh"
 )
 
+// freeAddrs picks n loopback addresses for the listeners of the in-process MOSN. The ports are taken from below the
+// range the kernel uses for outgoing connections and port-0 binds (ip_local_port_range starts at 32768): between this
+// probe and MOSN's bind nobody is handed one of them by chance, however busy the machine is.
 func freeAddrs(n int) []string {
-	var lns []net.Listener
+	const lo, hi = 12000, 32000
 	var out []string
-	for i := 0; i < n; i++ {
-		ln, err := net.Listen("tcp", "127.0.0.1:0")
-		vh.Must(err, "reserve port")
-		lns = append(lns, ln)
-		out = append(out, ln.Addr().String())
-	}
-	for _, ln := range lns {
+	port := lo + (os.Getpid()*7919+int(time.Now().UnixNano()%1000)*13)%(hi-lo)
+	for tries := 0; len(out) < n && tries < 4*(hi-lo); tries++ {
+		port++
+		if port >= hi {
+			port = lo
+		}
+		addr := fmt.Sprintf("127.0.0.1:%d", port)
+		ln, err := net.Listen("tcp", addr)
+		if err != nil {
+			continue
+		}
 		ln.Close()
+		out = append(out, addr)
+	}
+	if len(out) < n {
+		vh.Must(fmt.Errorf("only %d of %d ports free", len(out), n), "reserve ports")
 	}
 	return out
 }
@@ -59,9 +70,26 @@ func echoLoop(ln net.Listener, wrap func(net.Conn) (net.Conn, error)) {
 }
 
 var (
-	plainMu   sync.Mutex
-	plainSeen = map[string]int{}
+	plainMu     sync.Mutex
+	plainSeen   = map[string]int{}
+	resumedSeen = map[string]int{} // abbreviated handshakes seen by a stock TLS upstream
 )
+
+// leafHolder is the certificate of a stock upstream that is issued after the upstream was started.
+type leafHolder struct {
+	mu       sync.Mutex
+	leaf     *gotls.Certificate
+	notAfter time.Time
+}
+
+func (h *leafHolder) get() (*gotls.Certificate, error) {
+	h.mu.Lock()
+	defer h.mu.Unlock()
+	if h.leaf == nil {
+		return nil, fmt.Errorf("no certificate issued yet")
+	}
+	return h.leaf, nil
+}
 
 type peekConn struct {
 	net.Conn
@@ -139,6 +167,7 @@ func runE2E(p *pki, mock *sdsMock, groups []*group, upCases []tcase, out string,
 	upAddr := make([]string, len(ups))
 	upLives := make([]*upLive, len(ups))
 	upCfg0 := make([]vh.Ev, len(ups))
+	upLeaves := make([]*leafHolder, len(ups))
 	mkCluster := func(j int, cfg *v2.TLSConfig) v2.Cluster {
 		cl := testutil.NewBasicCluster(fmt.Sprintf("up-%d", j), []string{upAddr[j]})
 		cl.TLS = *cfg
@@ -152,12 +181,21 @@ func runE2E(p *pki, mock *sdsMock, groups []*group, upCases []tcase, out string,
 		}
 		sort.Strings(names)
 		key := fmt.Sprintf("%s|%v|%v", tc.Cert.Ca, names, tc.Cert.Expired)
+		if tc.Cert.Short { // an upstream of its own: its certificate is issued when the case pays its first visit
+			key = fmt.Sprintf("short|%d", j)
+		}
 		if tlsSrv[key] == "" {
-			leaf := p.upstreamLeaf(tc.Cert.Ca, names, tc.Cert.Expired)
 			ln, err := net.Listen("tcp", "127.0.0.1:0")
 			vh.Must(err, "tls echo listen")
 			defer ln.Close()
-			conf := &gotls.Config{Certificates: []gotls.Certificate{*leaf}}
+			conf := &gotls.Config{}
+			if tc.Cert.Short {
+				holder := &leafHolder{}
+				upLeaves[j] = holder
+				conf.GetCertificate = func(*gotls.ClientHelloInfo) (*gotls.Certificate, error) { return holder.get() }
+			} else {
+				conf.Certificates = []gotls.Certificate{*p.upstreamLeaf(tc.Cert.Ca, names, tc.Cert.Expired)}
+			}
 			// the upstream accepts TLS and (like a listener in inspector mode) plaintext, and counts the plaintext
 			// connections that carried data: MOSN must never talk plaintext to it (no case configures fall_back)
 			addr := ln.Addr().String()
@@ -169,7 +207,13 @@ func runE2E(p *pki, mock *sdsMock, groups []*group, upCases []tcase, out string,
 				}
 				if b == 0x16 {
 					s := gotls.Server(pc, conf)
-					return s, s.Handshake()
+					err := s.Handshake()
+					if err == nil && s.ConnectionState().DidResume {
+						plainMu.Lock()
+						resumedSeen[addr]++
+						plainMu.Unlock()
+					}
+					return s, err
 				}
 				plainMu.Lock()
 				plainSeen[addr]++
@@ -202,86 +246,93 @@ func runE2E(p *pki, mock *sdsMock, groups []*group, upCases []tcase, out string,
 		i int
 		g *group
 	}
-	work := make(chan job)
-	var wg sync.WaitGroup
-	var failMu sync.Mutex
-	var fail error
-	for i := 0; i < par; i++ {
-		w := &worker{pki: p}
-		wg.Add(1)
-		go func() {
-			defer wg.Done()
-			for j := range work {
-				// update histories go through the listener update of the running MOSN (handler.go AddOrUpdateListener)
-				var err error
-				reconfigure := func() error {
-					ln := mkListener(j.i)
-					a, e := net.ResolveTCPAddr("tcp", addrs[j.i])
-					if e != nil {
-						return e
-					}
-					ln.Addr = a
-					return server.GetListenerAdapterInstance().AddOrUpdateListener("", &ln)
-				}
-				if j.g.race { // SDS rotation and listener update in two goroutines, in the order of the schedule
-					var evs []vh.Ev
-					evs, err = lives[j.i].raceUpdates(reconfigure)
-					j.g.events = append(j.g.events, evs...)
-				} else {
-					for _, u := range j.g.upds {
-						var ev vh.Ev
-						ev, err = lives[j.i].apply(u, reconfigure)
-						if err != nil {
-							break
+	// forAll: the workers take groups off the queue. pass 0: a group without returning peers (update history, then the
+	// hellos); pass 1: first visits of returning peers, then the update history; pass 2: their second visits
+	forAll := func(pass int) error {
+		work := make(chan job)
+		var wg sync.WaitGroup
+		var failMu sync.Mutex
+		var fail error
+		for i := 0; i < par; i++ {
+			w := &worker{pki: p}
+			wg.Add(1)
+			go func() {
+				defer wg.Done()
+				for j := range work {
+					// update histories go through the listener update of the running MOSN (handler.go AddOrUpdateListener)
+					var err error
+					reconfigure := func() error {
+						ln := mkListener(j.i)
+						a, e := net.ResolveTCPAddr("tcp", addrs[j.i])
+						if e != nil {
+							return e
 						}
-						j.g.events = append(j.g.events, ev)
+						ln.Addr = a
+						return server.GetListenerAdapterInstance().AddOrUpdateListener("", &ln)
+					}
+					switch {
+					case pass == 2:
+						err = w.hellos(j.g, nil, addrs[j.i])
+					case j.g.race: // SDS rotation and listener update in two goroutines, in the order of the schedule
+						var evs []vh.Ev
+						evs, err = lives[j.i].raceUpdates(reconfigure)
+						j.g.events = append(j.g.events, evs...)
+					default:
+						if pass == 1 {
+							err = w.firstVisits(j.g, nil, addrs[j.i])
+						}
+						for _, u := range j.g.upds {
+							if err != nil {
+								break
+							}
+							var ev vh.Ev
+							ev, err = lives[j.i].apply(u, reconfigure)
+							if err == nil {
+								j.g.events = append(j.g.events, ev)
+							}
+						}
+					}
+					if err == nil && pass == 0 {
+						err = w.hellos(j.g, nil, addrs[j.i])
+					}
+					if err != nil {
+						failMu.Lock()
+						if fail == nil {
+							fail = err
+						}
+						failMu.Unlock()
 					}
 				}
-				if err == nil {
-					err = w.hellos(j.g, nil, addrs[j.i])
-				}
-				if err != nil {
-					failMu.Lock()
-					if fail == nil {
-						fail = err
-					}
-					failMu.Unlock()
-				}
-			}
-		}()
-	}
-	for i, g := range groups {
-		work <- job{i, g}
-	}
-	close(work)
-	wg.Wait()
-	vh.Must(fail, "e2e server cases")
-
-	tr := vh.NewTrace(out)
-	nh := 0
-	for _, g := range groups {
-		for _, e := range g.events {
-			tr.Emit(e)
+			}()
 		}
-		nh += len(g.hellos)
+		for i, g := range groups {
+			if g.res == (pass != 0) {
+				work <- job{i, g}
+			}
+		}
+		close(work)
+		wg.Wait()
+		return fail
 	}
+
+	// one connection through the plaintext listener of upstream case j: its tcp proxy connects to the TLS cluster
+	upEvs := make([][]vh.Ev, len(ups))
+	upUpds := make([][]vh.Ev, len(ups))
 	one := make([]byte, 1)
-	for j, job := range ups {
-		tc := job.tc
-		// the first secrets of an SDS backed cluster, then the update history: cluster updates of the running MOSN
-		upLives[j].deliver()
-		upds, err := upLives[j].history(tc, func(cfg *v2.TLSConfig) error {
-			return cluster.GetClusterMngAdapterInstance().TriggerClusterAddOrUpdate(mkCluster(j, cfg))
-		})
-		vh.Must(err, "e2e cluster update")
+	upConnect := func(j int, upds []vh.Ev, visit int) {
+		tc := ups[j].tc
 		srvAddr := upAddr[j]
 		plainMu.Lock()
-		before := plainSeen[srvAddr]
+		before, resumedBefore := plainSeen[srvAddr], resumedSeen[srvAddr]
 		plainMu.Unlock()
-		ev := vh.Ev{"ev": "up", "via": "e2e", "variant": job.variant, "upplain": false, "upds": upds, "cfg": upCfg0[j],
-			"cert": vh.Ev{"names": tc.Cert.Names, "ca": tc.Cert.Ca, "expired": tc.Cert.Expired}, "ok": false}
+		var notAfter time.Time
+		if upLeaves[j] != nil {
+			notAfter = upLeaves[j].notAfter
+		}
+		var ev vh.Ev
 		var lastErr error
 		for attempt := 0; attempt < 3; attempt++ {
+			t0 := time.Now()
 			c, err := net.DialTimeout("tcp", addrs[len(groups)+j], ioTimeout)
 			if err != nil {
 				lastErr = err
@@ -297,6 +348,8 @@ func runE2E(p *pki, mock *sdsMock, groups []*group, upCases []tcase, out string,
 				lastErr = err
 				continue
 			}
+			ev = upEvent(tc, ups[j].variant, upCfg0[j], upds, lateness(notAfter, t0, time.Now()))
+			ev["via"], ev["visit"] = "e2e", visit
 			if n == 1 && one[0] == 'T' {
 				ev["ok"] = true
 			} else if err != nil {
@@ -310,10 +363,79 @@ func runE2E(p *pki, mock *sdsMock, groups []*group, upCases []tcase, out string,
 		if plainSeen[srvAddr] != before {
 			ev["upplain"] = true
 		}
+		if resumedSeen[srvAddr] != resumedBefore {
+			ev["resumed"] = true
+		}
 		plainMu.Unlock()
-		tr.Emit(ev)
+		upEvs[j] = append(upEvs[j], ev)
+	}
+	// the first secrets of an SDS backed cluster, then the update history: cluster updates of the running MOSN
+	upHistory := func(j int) {
+		upds, err := upLives[j].history(ups[j].tc, func(cfg *v2.TLSConfig) error {
+			return cluster.GetClusterMngAdapterInstance().TriggerClusterAddOrUpdate(mkCluster(j, cfg))
+		})
+		vh.Must(err, "e2e cluster update")
+		upUpds[j] = upds
+	}
+
+	// returning peers (server side and upstream side) pay their first visit before everything else, so that their
+	// short-lived certificates run out while the other cases are replayed; they come back at the very end
+	for j, job := range ups {
+		if job.tc.Res == nil {
+			continue
+		}
+		upLives[j].deliver()
+		if h := upLeaves[j]; h != nil {
+			h.mu.Lock()
+			h.leaf, h.notAfter = p.shortUpstream(job.tc.Cert.Ca, certNames(job.tc))
+			h.mu.Unlock()
+		}
+		upConnect(j, nil, 1)
+		upHistory(j)
+		if !job.tc.Res.Expire { // nothing to wait for: MOSN connects again at once
+			upConnect(j, upUpds[j], 2)
+		}
+	}
+	vh.Must(forAll(1), "e2e server cases (returning peers, first visit)")
+	vh.Must(forAll(0), "e2e server cases")
+	for j, job := range ups {
+		if job.tc.Res == nil {
+			upLives[j].deliver()
+			upHistory(j)
+			upConnect(j, upUpds[j], 0)
+		}
+	}
+	slept := p.waitExpired()
+	for _, g := range groups {
+		if g.res {
+			g.events = append(g.events, vh.Ev{"ev": "wait", "ms": slept.Milliseconds()})
+		}
+	}
+	vh.Must(forAll(2), "e2e server cases (returning peers, second visit)")
+	for j, job := range ups {
+		if job.tc.Res != nil && job.tc.Res.Expire {
+			upConnect(j, upUpds[j], 2)
+		}
+	}
+
+	tr := vh.NewTrace(out)
+	nh, nu := 0, 0
+	for _, g := range groups {
+		for _, e := range g.events {
+			tr.Emit(e)
+		}
+		nh += len(g.hellos)
+		if g.res {
+			nh += len(g.hellos)
+		}
+	}
+	for j := range ups {
+		for _, e := range upEvs[j] {
+			tr.Emit(e)
+			nu++
+		}
 	}
 	tr.Close()
-	fmt.Fprintf(os.Stdout, "e2e groups=%d handshakes=%d upstream=%d events=%d\n", len(groups), nh, len(ups), tr.Len())
+	fmt.Fprintf(os.Stdout, "e2e groups=%d handshakes=%d upstream=%d events=%d waited_ms=%d\n", len(groups), nh, nu, tr.Len(), slept.Milliseconds())
 	m.Close()
 }
